@@ -629,3 +629,36 @@ class FreeAccessors(Contract):
             s, r, sub = path.value
             yield "score_and_retval_of_the_trace", same(s, self.sc) and r is self.rv
             yield "indexing_returns_the_choices_below_the_address", isinstance(sub, dict) and sub.get("b") is self.v
+
+
+@contract("genjax.core:Tr.get_choices", ["C01", "C05"])
+class TrObserversPure(Contract):
+    """frame condition of the trace observers: a trace is a value - get_choices() hands out a structure of its own on
+    every call, so that editing a returned (nested) dict in place cannot change what the trace reports afterwards
+    (score = -assess(choices) would otherwise fail for a trace whose score never changed); get_args / get_retval /
+    get_score return what is stored"""
+
+    cases = ["nested_choices"]
+
+    def call(self, case):
+        g = AbsGF("h")
+        self.a, self.b = value("a"), value("b")
+        self.sc, self.rv = Sym(fresh("score", z3.RealSort())), value("ret")
+        inner = core.Tr(g, ((), {}), {"z": self.b}, None, Sym(z3.RealVal(0)))
+        self.tr = core.Tr(g, ((value("arg"),), {}), {"x": self.a, "sub": inner}, self.rv, self.sc)
+        first = self.real(self.tr.get_choices)
+        # what a caller may do with the map it was handed
+        first["x"] = value("edited")
+        first["sub"]["z"] = value("edited_nested")
+        first["new"] = value("added")
+        second = self.real(self.tr.get_choices)
+        return first, second, self.real(self.tr.get_score), self.real(self.tr.get_retval)
+
+    def ensures(self, case, path):
+        yield "does_not_raise", path.outcome == "return"
+        if path.outcome != "return":
+            return
+        first, second, sc, rv = path.value
+        yield "later_call_still_reports_the_traces_own_choices", isinstance(second, dict) and set(second) == {"x", "sub"} and second["x"] is self.a and isinstance(second["sub"], dict) and second["sub"].get("z") is self.b
+        yield "returned_structures_are_not_shared_between_calls", second is not first and second.get("sub") is not first.get("sub")
+        yield "score_and_retval_as_stored", same(sc, self.sc) and rv is self.rv
